@@ -91,6 +91,7 @@ fn main() {
         "C10" => dispatch::<props::c10::C10>(&cli),
         "C20" => dispatch::<props::c20::C20>(&cli),
         "C19" => dispatch::<props::c19::C19>(&cli),
+        "C17" => dispatch::<props::c17::C17>(&cli),
         "C18" => dispatch::<props::c18::C18>(&cli),
         "C11" => dispatch::<props::c11::C11>(&cli),
         "C12" => dispatch::<props::c12::C12>(&cli),
